@@ -367,7 +367,7 @@ func (fb *formulaBuilder) formula(v ssa.Value) BExpr {
 		}
 	case *ssa.Call:
 		n := calleeName(&x.Call)
-		args := x.Call.Args
+		args := argsOf(x)
 		switch n {
 		case "(time.Time).Before":
 			return fb.timeOrd(args[0], "<", args[1])
@@ -490,8 +490,8 @@ func (fb *formulaBuilder) inlineCall(call *ssa.Call, f *ssa.Function) BExpr {
 		sub.names[k] = v
 	}
 	for i, p := range f.Params {
-		if i < len(call.Call.Args) {
-			sub.names[p] = fb.term(call.Call.Args[i])
+		if i < len(argsOf(call)) {
+			sub.names[p] = fb.term(argsOf(call)[i])
 		}
 	}
 	var alts []BExpr
